@@ -42,6 +42,8 @@ def replay_send(ctx, cx, bit):
     j = int(c.get('cx_j', 1)); kind = _lst(c, 'cx_kind', j); p34 = _lst(c, 'cx_pre34', j); p43 = _lst(c, 'cx_pre43', j); orig = _lst(c, 'cx_orig', j)
     args = [exe, 'send'] + [str(int(c.get(k, 0))) for k in ('cx_n', 'cx_r', 'cx_always', 'cx_persist', 'cx_op', 'cx_j', 'cx_destroy', 'cx_custom', 'cx_noinc')]
     for i in range(j): args += [str(kind[i]), str(p34[i]), str(p43[i]), str(orig[i] if orig[i] else 1)]
+    if 'cx_put_ok' in c or 'cx_putc_ok' in c:      # results the recording persister gave to the k-th message put / control put
+        args += ['P' + ''.join(str(x & 1) for x in _lst(c, 'cx_put_ok', 0)), 'C' + ''.join(str(x & 1) for x in _lst(c, 'cx_putc_ok', 0))]
     r = sh(args, timeout=60)
     if r.returncode >= 64 or r.returncode < 0: return False, 'driver problem rc=%s: %s' % (r.returncode, r.stdout.strip()[-300:])
     return bool(r.returncode & bit), r.stdout.strip()[-400:].replace('\n', ' | ')
